@@ -1,5 +1,6 @@
 import OV.Lemmas.C01Live
 import OV.Lemmas.C01Names
+import OV.Lemmas.C01Sim
 /-!
 # C01 — script functions mean the same eagerly, as an ONNX graph, and as plain Python
 
@@ -10,7 +11,8 @@ The property itself is the refinement
 
     convert f = .ok g → ∀ S fuel args vs, evalFunc S fuel f args = some vs → ∃ fuel', evalGraph S fuel' g args = some vs
 
-(`convert_correct`).  It is **not proved**, and it is **false for the code as it is**:
+(`convert_correct`).  It is proved for the first stage only — straight-line functions
+(`convert_correct_partial`) — and it is **false in general for the code as it is**:
 `convert_correct_full_refuted` (parallel assignment, finding C01-D25), `liveness_sound_loops_refuted`
 (zero-trip loops, C01-D23), `while_break_drops_condition_witness` (C01-D27), `castable_lost_at_if_witness` (C01-D24).
 What *is* proved, for all inputs and all operator meanings:
@@ -21,8 +23,8 @@ What *is* proved, for all inputs and all operator meanings:
                                    variables an `If` exports: an unsound live set silently drops an output);
 * the refutations above, each from a concrete program that is replayed on the real converter
   (harness/corpus_c01.jsonl).
-The per-program equivalence of source and emitted graph on the generated stream is *tested* (eager vs
-onnxruntime vs NumPy interpreter), not proved.
+Beyond straight-line code (if / for / while) the equivalence of source and emitted graph on the generated
+stream is *tested* (eager vs onnxruntime vs NumPy interpreter), not proved.
 -/
 namespace OV.Props.C01
 open OV.C01
@@ -47,6 +49,57 @@ theorem liveness_sound_loopfree {V : Type} (S : Sem V) (fuel : Nat) (st : Stmt) 
 /-- Non-vacuity: an `if` that assigns `x` in one branch only; `x`, `c` and `A` are live before it. -/
 example : loopFree (.ite (.var "c") [.assign "x" (.var "A")] []) = true
     ∧ liveInStmt (.ite (.var "c") [.assign "x" (.var "A")] []) ["x"] = ["A", "c", "x"] := by decide
+
+/-! ### The refinement, first stage: straight-line functions -/
+
+/-- **`convert_correct`, stage 1 (straight-line code).**  For every function whose body is a sequence of
+assignments `x = <expr>` (any expression of the subset: names, literals, `op.X(...)` calls with attributes,
+calls of other script functions, Python binary / unary / comparison operators incl. `!=`, negated literals,
+`%` with a float) followed by `return e1, …, en`, whose parameters are all tensors with distinct names:
+whenever the model converter accepts it and reading the source as plain Python over tensors — literals
+staying Python scalars until an operator consumes and promotes them (`Constant` + `CastLike` to the sibling
+sharing the type variable) — yields outputs `vs`, the emitted graph evaluates to exactly `vs`, for **every**
+input and **every** meaning of the operators.  Two named assumptions about operators: `Constant` of a
+literal always evaluates (`hConst`), and `Identity` is the identity (`hId`; the converter copies returned
+inputs and duplicate outputs through `Identity`).
+`_partial`: `if` / `for` / `while` / tuple and parallel assignment and attribute parameters are not covered;
+for parallel assignment and loops the statement is in fact false for the code as it is (below). -/
+theorem convert_correct_partial {V : Type} (S : Sem V)
+    (hConst : ∀ l, ∃ c, constOf S l = some c)
+    (hId : ∀ v, S.op "" "Identity" [some v] [] = some [v])
+    (f : Func) (g : Graph) (hsl : straightLine f.body = true) (hten : AllTensorParams f.params)
+    (hnames : (f.params.map Param.name).Nodup) (h : convert f = .ok g)
+    (fuel : Nat) (args vs : List V) (he : evalFunc S fuel f args = some vs) :
+    evalGraph S fuel g args = some vs :=
+  convert_correct_sl S hConst hId hsl hten hnames h he
+
+/-- Non-vacuity: `x = A + 1; y = x != B; return y, A` is straight-line, accepted, and evaluates under a
+concrete operator meaning. -/
+def slDemo : Func :=
+  { name := "f", params := [.tensor "A", .tensor "B"], retCount := none,
+    body := [
+      .assign "x" (.binop "Add" (.var "A") (.lit (.int 1))),
+      .assign "y" (.cmp "NotEq" (.var "x") (.var "B")),
+      .ret [.var "y", .var "A"] false] }
+
+def Sdemo : Sem Int where
+  op := fun _ name ins attrs =>
+    match name, ins with
+    | "Constant", [] => (match attrs with | [(_, .const "i:1")] => some [1] | _ => some [0])
+    | "CastLike", [some a, some _] => some [a]
+    | "Add", [some a, some b] => some [a + b]
+    | "Equal", [some a, some b] => some [if a = b then 1 else 0]
+    | "Not", [some a] => some [if a = 0 then 1 else 0]
+    | "Identity", [some a] => some [a]
+    | _, _ => none
+  truth := fun v => some (v ≠ 0)
+  natOf := fun v => some v.toNat
+  ofNat := fun n => Int.ofNat n
+  ofBool := fun b => if b then 1 else 0
+
+example : straightLine slDemo.body = true ∧ (convert slDemo).toOption.isSome = true
+    ∧ evalFunc Sdemo 0 slDemo [4, 5] = some [0, 4] := by
+  refine ⟨by decide, by decide +kernel, by decide +kernel⟩
 
 /-! ### The same statement with loops is false (finding C01-D23) -/
 
